@@ -774,7 +774,8 @@ func (o *opsSeam) finish(a *attempt) error {
 	o.rc.last[a.id] = a
 	if fail {
 		w.faults["operation-failed"]++
-		w.S.Logf("r%d %s(%d val=%d rev=%d) fails", a.rec, opName(a), a.id, a.val, a.rev)
+		w.S.Logf("r%d %s(%d val=%d) fails", a.rec, opName(a), a.id, a.val)
+		w.S.Note("rev=%d", a.rev)
 		delete(o.rc.errored, a.id)
 		return errInjected
 	}
@@ -784,7 +785,8 @@ func (o *opsSeam) finish(a *attempt) error {
 		o.rc.target[a.id] = a.val
 	}
 	delete(o.rc.errored, a.id)
-	w.S.Logf("r%d %s(%d val=%d rev=%d) ok", a.rec, opName(a), a.id, a.val, a.rev)
+	w.S.Logf("r%d %s(%d val=%d) ok", a.rec, opName(a), a.id, a.val)
+	w.S.Note("rev=%d", a.rev)
 	return nil
 }
 
